@@ -1,11 +1,11 @@
 #!/bin/bash
-# usage: tools/confirm_mutant.sh C09 1   - independently confirm a seeded change delivered in /tmp/wt/out-<id>/
+# usage: [MUT_SRC=/tmp/wt2] tools/confirm_mutant.sh C09 1 [number under /verif/seeded]  - independently confirm a seeded change delivered in $MUT_SRC/out-<id>/
 # (demo passes on the pinned tree, fails with the patch; the repository's baseline tests still pass with the patch)
 set -u
-ID=$1; K=$2
-SRC=/tmp/wt/out-$ID
-OUT=/verif/seeded/$ID-$K
-W=/tmp/confirm-$ID-$K
+ID=$1; K=$2; N=${3:-$K}
+SRC=${MUT_SRC:-/tmp/wt2}/out-$ID
+OUT=/verif/seeded/$ID-$N
+W=/tmp/confirm-$ID-$N
 BASE=$(cat $SRC/BASE 2>/dev/null || echo 0766864); rm -rf $W; git -C /repo worktree add -q --detach $W $BASE || exit 2
 cd $W
 PYTHONPATH=$W /venv/bin/python $SRC/demo$K.py > $W.demo0.log 2>&1; d0=$?
@@ -25,4 +25,4 @@ json.dump({"property": "$ID", "origin": "independent sub-agent given only the pr
  "needs_to_manifest": "see notes.md", "detected_by": "filled in by tools/score_mutants.py"}, open("$OUT/meta.json","w"), indent=1)
 PY
 cd /; git -C /repo worktree remove --force $W; rm -f $W.demo0.log $W.demo1.log $W.base.log
-echo "confirmed $ID-$K: apply=$ap demo0=$d0 demo1=$d1 import=$imp baseline=$b"
+echo "confirmed $ID-$N (patch$K): apply=$ap demo0=$d0 demo1=$d1 import=$imp baseline=$b"
